@@ -161,6 +161,34 @@ def work_edge(job):
     return 4, bad
 
 
+# compound strptime directives that carry a year / a whole date without %Y, %y, %m, %d (fix aa4397e):
+# valid languages and settings, so NO exception is documented for these calls
+COMPOUND = [("Mon Feb 29 10:00:00 1988", "%c"), ("Sat Feb 29 00:00:00 2020", "%c"), ("02/29/88", "%x"),
+            ("02/29/00", "%x"), ("12/31/99", "%x"), ("2020 09 6", "%G %V %u"), ("2016 09 1", "%G %V %u"),
+            ("0004 09 7", "%G %V %u"), ("9999 52 5", "%G %V %u"), ("Fri Dec 31 23:59:59 9999", "%c"),
+            ("Mon Jan  1 00:00:00 0001", "%c"), ("1988 060", "%Y %j"), ("060", "%j"), ("366", "%j"),
+            ("Mon Feb 29 10:00:00 1988 +0000", "%c %z"), ("10:00:00", "%X"), ("02/29/88 10:00:00", "%x %X")]
+
+
+def work_compound(job):
+    import dateparser
+
+    s, fmt = job
+    bad = []
+    n = 0
+    for st in ({}, {"PREFER_MONTH_OF_YEAR": "last", "PREFER_DAY_OF_MONTH": "last"},
+               {"PREFER_DAY_OF_MONTH": "first", "TIMEZONE": "UTC", "TO_TIMEZONE": "Asia/Tokyo"},
+               {"STRICT_PARSING": True}, {"RETURN_AS_TIMEZONE_AWARE": True}):
+        n += 1
+        try:
+            r = dateparser.parse(s, date_formats=[fmt], settings=dict(st))
+            if r is not None and not isinstance(r, datetime.datetime):
+                bad.append((s, fmt, "parse returned %r" % (r,)))
+        except Exception as e:
+            bad.append((s, fmt, "parse raised %s: %s (settings %r)" % (type(e).__name__, str(e)[:60], st)))
+    return n, bad
+
+
 def main():
     a = args()
     ss = strings(a.tier)
@@ -169,6 +197,11 @@ def main():
                             for j in range(len(ZONE_EDGE_STRINGS))], a.procs)
     failures = []
     total = 0
+    for n, bad in pmap(work_compound, COMPOUND, a.procs):
+        total += n
+        for s_, fmt, detail in bad:
+            failures.append({"id": "compound-directive:%s:%s" % (fmt, s_), "input": "parse(%r, date_formats=[%r])" % (s_, fmt),
+                             "detail": detail})
     for n, bad in edge:
         total += n
         for s, si, detail in bad:
